@@ -1,0 +1,20 @@
+//go:build verif
+
+package signer
+
+// Contracts for property C06 (API signature). Comment-only file.
+
+/*@
+// what the signature check decides is HMAC-SHA256 over a canonical request: uninterpreted here
+ufunc sigAccepts(s int, r int) bool
+// number of body bytes that the gateway will forward for the std request r (defined by the caller: for a
+// request buffered by the HTTP server it is the length of the payload)
+ufunc fwdLen(r int) int
+
+func (signer *Signer) Verify(req *http.Request) (err error)
+  trusted
+  requires signer != nil && req != nil
+  requires the-body-that-is-hashed-is-the-body-that-is-forwarded: signer.excludeBody || (req.Body != nil && ifaceVal(req.Body) != 0 && rdRem[ifaceVal(req.Body)] == fwdLen(ref(req)))
+  modifies req.Body, rdRem
+  ensures (err == nil) <==> sigAccepts(ref(signer), ref(req))
+@*/
